@@ -94,6 +94,12 @@ def scenario(rnd, with_cache):
             return f"check() raised {type(e).__name__}: {e}", sig
         if named != bad:
             return f"check() named {sorted(named)} but the damaged jobs (independent hash) are {sorted(bad)}; damage {kinds}", sig
+        if rnd.random() < 0.5:
+            # a session that (re)builds the cache after the damage must not launder a damaged state point into it
+            try:
+                signac.Project(p.path).update_cache()
+            except Exception:
+                pass
         for jid in os.listdir(p.workspace):
             q2 = signac.Project(p.path)
             try:
